@@ -165,7 +165,7 @@ func c04Loopback(c *Ctx) {
 			pl.cuts = [][]int{{40, 40, 64}, {32, 32, 64}, {1, 63, 64}, {63, 1, 64}, {20, 20, 64}, {40, 64, 64}}[r.Pick(6)]
 		}
 		cur.Store(pl)
-		cfg := ClientCfg{Bind: workerIP(c, 0) + ":0", Broadcast: bc.Addr, Timeout: T}
+		cfg := ClientCfg{Bind: workerIP(c, 0) + ":0", Broadcast: bc.Addr, Timeout: T, Debug: serial%3 == 0} // every third client dumps whatever arrives (debug mode)
 		switch {
 		case kind == "udp-closed-port":
 			cfg.Devices = []DevCfg{{ID: serial, Addr: fmt.Sprintf("127.0.0.1:%d", closedPort), Proto: "udp"}}
